@@ -375,6 +375,43 @@ func runC15(c c15Case, container string) string {
 	if e1 != nil || e2 != nil {
 		// data edits: the outcome must be the same; appended columns / sheets: an accepted workbook stays accepted
 		if ((e1 != nil) != (e2 != nil) && c.kind == "data") || (e1 == nil && e2 != nil) {
+			// what was appended must be acceptable in itself: the appended sheets as a workbook of their own, the appended
+			// columns behind the sheet's first column alone. A generated addition that protogen refuses on its own (a
+			// generator slip, e.g. a member whose name starts with its sibling's name) says nothing about the old part
+			if e1 == nil && c.kind != "data" && len(c.v1.Sheets) > 0 {
+				var alone bookSpec
+				if c.kind == "sheets" && len(c.v2.Sheets) > len(c.v1.Sheets) {
+					alone = bookSpec{Name: "Fuzz", Sheets: c.v2.Sheets[len(c.v1.Sheets):]}
+				} else if c.kind == "columns" {
+					r1, r2 := c.v1.Sheets[0].Rows, c.v2.Sheets[0].Rows
+					if len(r1) > 0 && len(r2) > 0 && c.v2.Sheets[0].Meta["Transpose"] == "" {
+						var rows [][]string
+						for i := range r2 {
+							row := []string{""}
+							if len(r2[i]) > 0 {
+								row[0] = r2[i][0]
+							}
+							if len(r2[i]) > len(r1[0]) {
+								row = append(row, r2[i][len(r1[0]):]...)
+							}
+							rows = append(rows, row)
+						}
+						alone = bookSpec{Name: "Fuzz", Sheets: []sheetSpec{{Name: c.v2.Sheets[0].Name, Rows: rows, Meta: c.v2.Sheets[0].Meta}}}
+					}
+				}
+				if len(alone.Sheets) > 0 {
+					w3 := newWorkspace()
+					write(w3, alone)
+					e3 := w3.genProto(ro)
+					w3.cleanup()
+					// … for the one reason the generator is known to slip on (a member named like the start of its
+					// sibling yields an empty field name); any other refusal of the extended workbook is judged
+					slip := "is not a valid protobuf identifier"
+					if e3 != nil && strings.Contains(fmt.Sprintf("%+v", e3), slip) && strings.Contains(fmt.Sprintf("%+v", e2), slip) {
+						return "same appended-part-refused-on-its-own"
+					}
+				}
+			}
 			if os.Getenv("VERIF_DEBUG") != "" {
 				println("PARITY e1=", fmt.Sprint(e1), "\ne2=", fmt.Sprint(e2), "\nV1", debugBook(c.v1), "\nV2", debugBook(c.v2))
 			}
